@@ -383,7 +383,7 @@ func runConfig(args []string) error {
 						continue
 					}
 					for _, zone := range []string{"", zoneName, "nosuchif0"} {
-						for _, port := range []int{-1, -2, 1067, 0, 65535, -3, -4, -5} {
+						for _, port := range []int{-1, -2, 1067, 0, 65535, -3, -4, -5, 65603, 66083, 65536, 4294967363} {
 							sp := cspec{ip: cl, written: ipText(cl, r), bracket: br, zone: zone, port: port}
 							if port == -3 {
 								sp.port, sp.colon = -1, true
